@@ -97,7 +97,7 @@ func TestC14(t *testing.T) {
 		}
 
 		if err := json.Unmarshal(b, &rsf); err == nil && rsf.Case != nil {
-			_, problems, _ := runRemoteWatch(t, *rsf.Case)
+			_, _, problems, _ := runRemoteWatch(t, *rsf.Case)
 			for _, p := range problems {
 				rep.violateKey(0, "remote-selector:"+rwKey(p), "remote-selector: "+p, map[string]any{"remote_selector_case": rsf.Case})
 			}
@@ -381,7 +381,7 @@ func TestC14(t *testing.T) {
 			c := genRemoteWatch(r)
 			c.Kind = "selector"
 
-			_, problems, _ := runRemoteWatch(t, c)
+			_, _, problems, _ := runRemoteWatch(t, c)
 
 			rep.count(fmt.Sprint("remote-selector", i), true)
 			rep.hit("remote_selector_watch")
